@@ -474,7 +474,20 @@ impl<'a> G<'a> {
         let st = self.cfg_stimeout;
         let seq = self.next_seq();
         let mut sel = vec![ctrl(seq), 3];
-        let o = control_headers(&mut self.r, 3);
+        // sometimes so many controls that the echo outgrows a small solicited buffer (249: 62 g41v2 objects,
+        // 300: 74): the SELECT's echo is truncated, it has not succeeded and must not arm the OPERATE (S146)
+        let o = if self.r.chance(1, 8) {
+            let n = *self.r.pick(&[62u8, 74, 80]);
+            let mut o = vec![0x29, 0x02, 0x17, n];
+            for k in 0..n {
+                o.push(k);
+                o.extend_from_slice(&(self.r.next() as i16).to_le_bytes());
+                o.push(0);
+            }
+            o
+        } else {
+            control_headers(&mut self.r, 3)
+        };
         sel.extend(&o);
         self.line("@wf");
         self.last_note = Some("@wf".into());
